@@ -24,11 +24,31 @@ def PS(ps):
     return torch.tensor([float(p) for p in ps], dtype=F)
 
 
+ROUTES = [True]        # objects are built through the library's own constructors as often as from raw arrays (see _route)
+
+
+def _route(vals):
+    """0: raw arrays; 1: the library's constructor (pauli / paulis from printed strings, CliffordMap.to_state for states) -- chosen by the content, so a replay takes the same route"""
+    if not ROUTES[0]:
+        return 0
+    def tot(v):
+        return sum(tot(x) for x in v) if isinstance(v, (list, tuple)) else int(v)
+    return 1 if tot(vals) % 3 == 1 else 0
+
+
+def _pstr(a):
+    return {0: '', 1: 'i', 2: '-', 3: '-i'}[int(a[1]) % 4] + ''.join('IXZY'[int(x) + 2 * int(z)] for x, z in zip(a[0][0::2], a[0][1::2]))
+
+
 def P(a):
+    if len(a[0]) >= 2 and _route(a) == 1:
+        return _reg(PA.pauli(_pstr(a)), 'P', [[int(v) for v in a[0]], int(a[1])])
     return _reg(PA.Pauli(G(a[0]), int(a[1])), 'P', [[int(v) for v in a[0]], int(a[1])])
 
 
 def PL(l, width=0):
+    if len(l) >= 1 and len(l[0][0]) >= 2 and _route(l) == 1:
+        return _reg(PA.paulis([_pstr(a) for a in l]), 'PL', [[[int(v) for v in a[0]], int(a[1])] for a in l])
     return _reg(PA.PauliList(GS([a[0] for a in l], width), PS([a[1] for a in l])), 'PL', [[[int(v) for v in a[0]], int(a[1])] for a in l])
 
 
@@ -38,6 +58,16 @@ def CM(l):
 
 def STATE(t):
     rows, r = t
+    n_ = len(rows) // 2
+    if n_ >= 1 and len(rows) == 2 * n_ and _route(t) == 1:
+        m = [None] * (2 * n_)
+        m[0::2], m[1::2] = rows[n_:], rows[:n_]
+        ROUTES[0] = False
+        try:
+            st = CM(m).to_state(int(r))
+        finally:
+            ROUTES[0] = True
+        return _reg(st, 'ST', [[[[int(v) for v in a[0]], int(a[1])] for a in rows], int(r)])
     return _reg(ST.StabilizerState(GS([a[0] for a in rows]), ps=PS([a[1] for a in rows])).set_r(int(r)), 'ST', [[[[int(v) for v in a[0]], int(a[1])] for a in rows], int(r)])
 
 
@@ -294,10 +324,36 @@ def _(l): return [iv(v) for v in PL(l).weight()]
 
 
 # ---------------------------------------------------------------- circuits (torchclifford has CliffordGate / CliffordLayer / CliffordCircuit; no named gates, no Circuit with measurements)
+def _ctor_route(qs, gen_):
+    """a rotation gate is as often built by the library's own constructor as by hand: when the generator is non-trivial on every declared qubit (so that its support IS the
+    declared qubits, in ascending order) a third of the gates go through clifford_rotation_gate(full-width generator) and a third through
+    clifford_rotation_gate(generator, qubits); the rest set .generator directly"""
+    qs = [int(q) for q in qs]
+    g, p = gen_
+    k = len(qs)
+    if k == 0 or len(g) != 2 * k or qs != sorted(qs) or any(not (g[2 * i] or g[2 * i + 1]) for i in range(k)):
+        return None
+    route = (sum(qs) + 3 * int(p) + sum(int(b) for b in g)) % 3
+    if route == 0:
+        W = qs[-1] + 1
+        full = [0] * (2 * W)
+        for i, q in enumerate(qs):
+            full[2 * q], full[2 * q + 1] = int(g[2 * i]), int(g[2 * i + 1])
+        return CI.clifford_rotation_gate(P([full, p]))
+    if route == 1:
+        import numpy as _np
+        return CI.clifford_rotation_gate(P([list(g), p]), _np.array(qs))
+    return None
+
+
 def mk_gate(spec):
     """same gate specs as impl_np.mk_gate; a named gate becomes a forward-map gate with the table of the pyclifford gate"""
     qs, k = spec
     qs = [int(q) for q in qs]
+    if k[0] == 0:
+        via = _ctor_route(qs, k[1])
+        if via is not None:
+            return via
     g = CI.CliffordGate(*qs)
     if k[0] == 0:
         g.generator = P(k[1])
